@@ -57,6 +57,15 @@ def build(ctx, rnd, thorough):
             continue                                   # the fault position is never reached in this history
         scs.append(scenario(len(scs), policy, fkind, fat, hist, rnd))
     n_model = len(scs)
+    # a fault anywhere, then the same driver object is closed, re-opened and used again (state that survives close())
+    for h1 in (["open", "msgC"], ["open", "msgU", "msgC"], ["open", "msgC", "msgC"]):
+        for tail in (["close", "open", "msgC"], ["close", "close", "open", "msgC", "close"], ["msgC", "close", "open", "msgC"]):
+            for fat in range(1, 21):
+                for fk in ("raise", "eof"):
+                    for pol in ("LargeOK", "LargeRefused"):
+                        if fk == "eof" and fat > 8 and pol == "LargeRefused":
+                            continue
+                        scs.append(scenario(len(scs), pol, fk, fat, h1 + tail, rnd))
     # longer seeded histories, with-blocks, LogixDriver (whose open() performs many exchanges), multiple re-opens
     for j in range(1500 if thorough else 300):
         hist = [rnd.choice(["open", "close", "msgC", "msgU"]) for _ in range(rnd.randint(3, 8))]
